@@ -117,7 +117,32 @@ class SCRG_remove_atom_1(LoopInv):
         ]
 
 
+def _role_loop(label):
+    class _L(LoopInv):
+        __doc__ = f"""for bond in self.bonds: a1, a2 = bond; if self.get_bond_attribute(a1, a2, "reaction") == Change.{label}: acc.add(bond)"""
+        modifies_set = ("bset",)
+        accumulators = {"f_bonds": "bset", "b_bonds": "bset"}
+
+        def inv(self, ctx, done):
+            v0 = ctx.v_entry
+            acc = ctx.fr.env.get("f_bonds") if isinstance(ctx.fr.env.get("f_bonds"), H.SetRef) else ctx.fr.env.get("b_bonds")
+            b = z3.Const("lb", BondS)
+            r_ = z3.Int("lr")
+            mem = H.heap_of(ctx.interp).s_has(acc.t, acc.ref, b)
+            is_role = z3.And(v0.bond(b), v0.battr_has(b, H.K_REACTION), v0.battr_val(b, H.K_REACTION) == H.ValS.VChg(H.CHG[label]))
+            return [
+                ("visited-are-bonds", FA([b], z3.Implies(z3.Select(done, b), z3.Select(ctx.C, b)), patterns=[z3.Select(done, b)])),
+                ("collected-are-the-visited-bonds-with-this-change", FA([b], mem == z3.And(z3.Select(done, b), is_role), patterns=[mem])),
+                ("no-other-set-is-touched", FA([r_], z3.Implies(r_ != acc.ref, z3.Select(H.heap_of(ctx.interp).mem["bset"], r_) == z3.Select(ctx.h_entry.mem["bset"], r_)))),
+            ]
+
+    return _L
+
+
 LOOPS = {
+    ("graphs/crg.py", "CondensedReactionGraph.get_formed_bonds", 0): _role_loop("FORMED"),
+    ("graphs/crg.py", "CondensedReactionGraph.get_broken_bonds", 0): _role_loop("BROKEN"),
+    ("graphs/crg.py", "CondensedReactionGraph.get_fleeting_bonds", 0): _role_loop("FLEETING"),
     ("graphs/scrg.py", "StereoCondensedReactionGraph.remove_atom", 1): SCRG_remove_atom_1,
     ("graphs/mg.py", "MolGraph.remove_atom", 0): MG_remove_atom_0,
     ("graphs/smg.py", "StereoMolGraph.remove_atom", 0): SMG_remove_atom_0,
